@@ -37,7 +37,12 @@ def post_order_lexicographic(top: str, ignore_pathspec: pathspec.PathSpec = None
     children = []
     for name in names:
         file_path = os.path.join(top, name)
-        if ignore_pathspec and ignore_pathspec.match_file(os.path.relpath(file_path, root)):
+        relative_path = os.path.relpath(file_path, root)
+        if isdir(file_path) and not os.path.islink(file_path):
+            # a trailing separator tells the matcher that this is a folder, so that folder patterns ("name/")
+            # exclude the folder itself and not only what is inside of it
+            relative_path += "/"
+        if ignore_pathspec and ignore_pathspec.match_file(relative_path):
             if os.path.basename(os.path.normpath(file_path)) != ascmhl_folder_name:
                 logger.verbose(f"ignoring filepath {file_path}")
             continue
